@@ -1,6 +1,11 @@
 // Command vskelgen regenerates lean/LiskVerif/Gen/VerifySkeleton.lean from the current source of
 // /repo (tie A of property C03, DESIGN.md §6 C03; obligations in lean/LiskVerif/Props/C03_Gen.lean).
 //
+// With `-set bft` (run_bft.sh) the table is `bftTargets` instead - liskbft `Module.BeforeTransactionsExecute` and
+// `BFTVotes.updateMaxHeightCertified` - and the output is lean/LiskVerif/Gen/BFTSkeleton.lean (namespace
+// LiskVerif.Gen.BFTS; C06 / C02: the certified-height update and the pruning are unconditional, obligations in
+// lean/LiskVerif/Props/C06_CertifiedGen.lean).
+//
 // For the functions of the block acceptance path (table `targets`) it extracts, in program order and
 // as plain Lean data (`List Item`, strings only), the *verification skeleton*:
 //
@@ -64,6 +69,17 @@ var targets = []target{
 	{"pkg/blockchain", "BlockAssets", "Valid"},
 }
 
+// table of `-set bft`: the per-header step of the BFT module
+var bftTargets = []target{
+	{"pkg/consensus/liskbft", "Module", "BeforeTransactionsExecute"},
+	{"pkg/consensus/liskbft", "BFTVotes", "updateMaxHeightCertified"},
+}
+
+// namespace and header text of the output (overwritten by `-set bft`)
+var outNS = "LiskVerif.Gen.VS"
+var outDoc = "   Verification skeletons (ordered checks, calls, staging and write sites) of the block acceptance path:\n" +
+	"   Executer.process / processValidated / verifyBlock / verifyAggregateCommit, stateExecuter, Block.Validate … -/\n\n"
+
 // packages whose integer constants are resolved in guards
 var constDirs = []string{"pkg/crypto", "pkg/blockchain", "pkg/labi"}
 
@@ -109,7 +125,8 @@ var selfFields = map[string]string{
 }
 
 // in-memory receiver fields that may be assigned
-var setFields = map[string]bool{"Executer|self.lastBlockReceived": true, "Executer|self.syncying": true, "stateExecuter|self.consensus": true, "stateExecuter|self.events": true}
+var setFields = map[string]bool{"Executer|self.lastBlockReceived": true, "Executer|self.syncying": true, "stateExecuter|self.consensus": true, "stateExecuter|self.events": true,
+	"BFTVotes|self.maxHeightCertified": true}
 
 // calls (besides make / composite literals) that return a fresh local object which may be filled in place
 var freshCtors = map[string]bool{"make": true, "certificate.NewCertificateFromBlock": true}
@@ -178,7 +195,19 @@ func (t *tr) fail(n ast.Node, f string, a ...interface{}) {
 func main() {
 	repo := flag.String("repo", "/repo", "repository root")
 	out := flag.String("out", "", "output Lean file")
+	set := flag.String("set", "", "table: \"\" = block acceptance path (Gen/VerifySkeleton.lean), bft = per-header step of liskbft (Gen/BFTSkeleton.lean)")
 	flag.Parse()
+	switch *set {
+	case "":
+	case "bft":
+		targets = bftTargets
+		outNS = "LiskVerif.Gen.BFTS"
+		outDoc = "   Skeletons (ordered calls, error exits, returns, receiver-field assignments) of the per-header step of liskbft:\n" +
+			"   Module.BeforeTransactionsExecute, BFTVotes.updateMaxHeightCertified -/\n\n"
+	default:
+		fmt.Fprintln(os.Stderr, "vskelgen: unknown -set", *set)
+		os.Exit(2)
+	}
 	g := &gen{repo: *repo, pkgs: map[string]*pkgInfo{}, consts: map[string]uint64{}, used: map[string]uint64{}, vars: map[string]uint64{}, usedVars: map[string]uint64{}}
 	if err := g.run(*out); err != nil {
 		fmt.Fprintln(os.Stderr, "vskelgen: ERROR:", err)
@@ -1150,9 +1179,8 @@ func (g *gen) run(out string) error {
 		body.WriteString("]\n\n")
 	}
 	sb.WriteString("/- GENERATED by tools/vskelgen from /repo — do not edit. Regenerated on every check run.\n")
-	sb.WriteString("   Verification skeletons (ordered checks, calls, staging and write sites) of the block acceptance path:\n")
-	sb.WriteString("   Executer.process / processValidated / verifyBlock / verifyAggregateCommit, stateExecuter, Block.Validate … -/\n\n")
-	sb.WriteString("namespace LiskVerif.Gen.VS\n\n")
+	sb.WriteString(outDoc)
+	sb.WriteString("namespace " + outNS + "\n\n")
 	sb.WriteString("/-- one step of a function body in program order (see tools/vskelgen/main.go for the vocabulary) -/\n")
 	sb.WriteString("structure Item where\n  kind : String\n  ctx : List String := []\n  op : String := \"\"\n  lhs : String := \"\"\n  rhs : String := \"\"\n  ret : String := \"\"\n  callee : String := \"\"\n  guard : String := \"\"\n  atoms : List String := []\nderiving Repr, DecidableEq\n\n")
 	for _, gd := range g.guards {
@@ -1189,7 +1217,7 @@ func (g *gen) run(out string) error {
 		}
 		sb.WriteString("/-- " + m.doc + " -/\ndef " + m.name + " : List (String × Nat) := [" + strings.Join(cs, ", ") + "]\n\n")
 	}
-	sb.WriteString("end LiskVerif.Gen.VS\n")
+	sb.WriteString("end " + outNS + "\n")
 	if out == "" {
 		fmt.Print(sb.String())
 		return nil
